@@ -90,6 +90,13 @@ def reopen_cfgs():
     c.append(dict(H4, NK=2, FSBS=16, FOLLOWUP=None, _unwindset=uw(2, FU), _tier="thorough"))
     return c
 
+import importlib.util as _ilu, os as _os
+def _e2undo(prop):
+    p = _os.path.join(_os.path.dirname(_os.path.abspath(__file__)), "..", "E2UNDO", "spec.py")
+    s = _ilu.spec_from_file_location("spec_E2UNDO_for_" + prop, p)
+    m = _ilu.module_from_spec(s)
+    s.loader.exec_module(m)
+    return m.ENTRIES_FOR(prop)
 HARNESSES = [
     dict(name="capture", src="capture.c",
          funcs=["undo_write_blk64", "undo_write_tdb", "write_undo_indexes", "undo_io_read_error",
@@ -111,6 +118,8 @@ HARNESSES = [
          bound="undo block 48 bytes (hook H4), 0..3 keys of 1..2 undo blocks in up to two key blocks, fs block size 16/48, "
                "fs offset 0 or any non-zero value < 2^40, one flipped bit at a symbolic position per damage class"),
 ]
+HARNESSES += _e2undo("C12")   # the real main() of misc/e2undo.c (sources in harness/E2UNDO)
+
 MANIFEST = {
     "text": "Bounded-exhaustive inductive step on the undo manager: from every undo state satisfying the stated invariant "
             "(block map, current key block, cursor, device length symbolic) one write / write_byte / zeroout / discard with "
